@@ -1216,29 +1216,29 @@ func writeEvidence(prop, tier string, seed uint64, meta propMeta, a *agg, bi *bu
 		"wall_s":      wall.Seconds(),
 		"violations":  violations,
 		"coverage": map[string]any{
-			"evaluations":            a.runs,
-			"distinct_nontrivial":    len(a.distinct),
-			"rule":                   rule,
-			"samples":                samples,
-			"nontrivial_runs":        a.nontrivial,
-			"distinct_schedules":     len(a.distinctSched),
-			"runs_with_interleaving": a.interleaved,
-			"runs_per_hour":          perHour,
-			"simulated_seconds":      float64(a.simNS) / 1e9,
-			"steps":                  a.steps,
-			"tasks_spawned":          a.tasks,
-			"max_runnable_tasks":     a.maxRunnable,
-			"stalls_injected":        a.stalls,
-			"faults_fired":           faults,
-			"coverage_probes":        cov,
-			"strategies":             a.strategies,
+			"evaluations":                a.runs,
+			"distinct_nontrivial":        len(a.distinct),
+			"rule":                       rule,
+			"samples":                    samples,
+			"nontrivial_runs":            a.nontrivial,
+			"distinct_schedules":         len(a.distinctSched),
+			"runs_with_interleaving":     a.interleaved,
+			"runs_per_hour":              perHour,
+			"simulated_seconds":          float64(a.simNS) / 1e9,
+			"steps":                      a.steps,
+			"tasks_spawned":              a.tasks,
+			"max_runnable_tasks":         a.maxRunnable,
+			"stalls_injected":            a.stalls,
+			"faults_fired":               faults,
+			"coverage_probes":            cov,
+			"strategies":                 a.strategies,
 			"instrumented_branch_probes": map[string]any{"total": len(probes), "hit": hit, "never_hit": zero},
-			"instrumentation":        bi.stats,
-			"tree_fingerprint":       bi.tree,
-			"engine_errors":          infra,
-			"known_findings_printed": knownList,
-			"real_components":        real,
-			"stub_components":        stub,
+			"instrumentation":            bi.stats,
+			"tree_fingerprint":           bi.tree,
+			"engine_errors":              infra,
+			"known_findings_printed":     knownList,
+			"real_components":            real,
+			"stub_components":            stub,
 		},
 		"assumptions": []string{
 			"results are samples of an unbounded schedule/fault/input space: a clean batch is evidence, not proof",
